@@ -100,3 +100,69 @@ func TestProducerConsumerGrid(t *testing.T) {
 		(len(gridObjSrc)+len(gridNumSrc))*len(gridPass), len(gridPass), len(gridObjUse), len(gridNumUse), shard, nshards, n)
 	st.mu.Unlock()
 }
+
+// Nested compositions: by-expression functions inside the key expressions of by-expression
+// functions, slices inside the right-hand sides of slices, filters after projections after
+// filters, multi-selects in multi-selects - on a document with unsorted arrays at two levels.
+const nestedDoc = `{"groups":[{"name":"g1","items":[{"n":3,"v":"c"},{"n":1,"v":"a"},{"n":2,"v":"b"}],"rows":[[1,2,3],[4,5,6]]},{"name":"g2","items":[{"n":9,"v":"z"},{"n":7,"v":"x"}],"rows":[[7,8],[9]]},{"name":"g3","items":[{"n":5,"v":"m"},{"n":4,"v":"k"},{"n":6,"v":"l"},{"n":0,"v":"j"}],"rows":[]},{"name":"g0","items":[{"n":8,"v":"y"}],"rows":[[0]]}],"rows":[[1,2,3],[4,5,6],[7,8,9],[10,11,12]],"missing":null}`
+
+var nestedExprs = []string{
+	"sort_by(groups, &sort_by(items, &n)[-1].n)[*].name", "sort_by(groups, &sort_by(items, &n)[0].n)[*].name", "sort_by(groups, &max_by(items, &n).n)[*].name", "max_by(groups, &sort_by(items, &v)[0].v).name",
+	"min_by(groups, &min_by(items, &n).n).name", "map(&sort_by(items, &n)[*].n, groups)", "groups[*].sort_by(items, &n)[*].v", "sort_by(groups, &length(sort_by(items, &v)))[*].name",
+	"sort_by(groups, &sum(map(&max_by(items, &n).n, [@, @])))[*].name", "groups[?max_by(items, &n).n > `5`].name", "sort_by(groups, &sort_by(items, &sort_by([@, @], &n)[0].n)[0].v)[*].name",
+	"sort_by(groups, &sort_by(items, &v)[0].v)[*].items[0].n", "[sort_by(groups, &sort_by(items, &n)[0].n)[0].name, groups[0].items[0].n]", "map(&max_by(items, &n), groups)[*].v", "groups[*].items | [*][?n > `2`].v",
+	"rows[0:][0:]", "rows[1:3][::-1]", "rows[::-1][1:]", "rows[:2][*][1:]", "rows[1:][?@[0] > `4`][0:1]", "groups[*].rows[0:][0:1]", "rows[0:] | [*][::2]", "rows[::2][::-1][0]", "map(&@[1:], rows[1:])", "rows[1:][*][?@ > `5`]",
+	"groups[?items[?n > `5`]].name", "groups[*].items[?n > `2`].v", "groups[?items[?n > `2`][?v > 'b']].name", "groups[*].items[*].[n, v][]", "groups[*].{g: name, top: max_by(items, &n).v, all: items[*].n}", "groups[].items[].n", "groups[*].items[*].n[]",
+	"groups[*].[name, items[*].[v, [n]]]", "[groups[0].items[*].n, [groups[1].items[*].n, [groups[2].items[*].n]]]", "{a: {b: {c: groups[*].name}}}.a.b.c", "groups[?!(items[?n > `5`] && name)].name", "groups[?!items[?n > `8`] || !!missing].name",
+	"groups[*].items[*].v | [0] | [1:]", "(groups[*].items)[*][0].n", "groups[*].(items[*].(n))", "groups[*].items[*].n | [*][0]", "length(groups[?length(items[?n > `1`]) > `1`])", "groups[?length(items) > `1`].items[?n != `1`].v",
+	"((groups)[0].items)[1].n", "((groups[0]).items[1]).n", "(((groups)))[0].name", "groups[0].items[1:][0].v", "groups[0].items[1:].v", "groups[*].items[0][1:]", "rows[0][1:][0]", "rows[1][0:2].abs(@)", "groups[1].rows[0][1:]",
+	"groups[*].items[*].n | [*] | [0] | [1:] | length(@)", "groups | [*].items | [*][*].n | [0] | [0]", "groups[*].name | sort(@) | [0] | length(@) | [@, @] | [0]", "groups | missing | groups",
+	"[!!(groups[0].name < `1`), !!(groups[0].items[0].n < `1`), !!(missing < missing)]", "groups[*].[!!(name < `1`), !(items[0].n >= `3`)]",
+}
+
+// TestNestedCompositions runs them under the property named by VERIF_PROP.
+func TestNestedCompositions(t *testing.T) {
+	prop := envStr("VERIF_PROP", "C02")
+	kind := map[string]string{"C06": "nomutate", "C16": "jsondata", "C12": "concurrent"}[prop]
+	if kind == "" {
+		kind = "diff"
+	}
+	n := 0
+	for _, e := range nestedExprs {
+		for _, ctx := range []string{"%s", "[%s, %s]", "%s | [@, @] | [0]"} {
+			expr := strings.Replace(ctx, "%s", e, -1)
+			extra := map[string]interface{}{"cell": "nested"}
+			if kind == "concurrent" {
+				extra = map[string]interface{}{"mode": []string{"same-doc", "own-docs"}[n%2]}
+				if n%3 == 0 {
+					// many callers at once (anything that counts or shares per expression rather than per call)
+					extra["goroutines"] = 96.0
+					extra["iters"] = 3.0
+				}
+			}
+			run(t, Case{Property: prop, Kind: kind, Expr: expr, Doc: nestedDoc, Extra: extra})
+			n++
+		}
+	}
+	if kind == "concurrent" {
+		// searches long enough for a hundred of them to be in flight at once (several scheduler
+		// quanta each): nested by-expression functions over 600 groups
+		var sb strings.Builder
+		sb.WriteString(`{"groups":[`)
+		for i := 0; i < 600; i++ {
+			if i > 0 {
+				sb.WriteByte(',')
+			}
+			fmt.Fprintf(&sb, `{"name":"g%03d","items":[{"n":%d,"v":"c"},{"n":%d,"v":"a"},{"n":%d,"v":"b"},{"n":%d,"v":"d"}]}`, (i*389)%600, (i*7)%13, (i*11)%17, (i*5)%7, i%3)
+		}
+		sb.WriteString(`]}`)
+		for _, e := range []string{"sort_by(groups, &sort_by(items, &n)[-1].n)[0].name", "sort_by(groups, &sum(map(&max_by(items, &n).n, [@, @])))[-1].name", "max_by(groups, &length(sort_by(items, &v)[?n > `1`])).name", "length(groups[?max_by(items, &n).n > `5`])"} {
+			run(t, Case{Property: prop, Kind: kind, Expr: e, Doc: sb.String(), Extra: map[string]interface{}{"mode": "same-doc", "goroutines": 96.0, "iters": 2.0}})
+			n++
+		}
+	}
+	st := statsFor(prop)
+	st.mu.Lock()
+	st.Exhaustive[prop+".nested-compositions"] = fmt.Sprintf("%d expressions that nest a construct inside the same or a sibling construct two to four levels deep (by-expression keys that sort, slices of slices, filters of filters, multi-selects of multi-selects, parenthesised left operands, pipes of pipes) x 3 contexts: %d cases", len(nestedExprs), n)
+	st.mu.Unlock()
+}
